@@ -5,7 +5,7 @@
    lines (long texts are cut into windows of W tokens; `first`/`last` mark the windows of
    one text, the recogniser states are carried from line to line in si / so):
 
-     [id, first, last, keep, it, ot, ilen, olen, igo, ogo, panic, err]
+     [id, first, last, keep, it, ot, ilen, olen, igo, ogo, panic, err, ows, nn]
 
    it / ot   raw lexemes (byte sequences) of the input / of the minifier's output in this
              window, split by the harness's own splitter (whitespace, structural bytes, string
@@ -19,7 +19,7 @@
 
    Scope: "For every RFC 8259 JSON text" - lines whose input is not a valid text are outside
    the property and only cross-checked. *)
-EXTENDS JsonDoc, TraceIO
+EXTENDS JsonSepFn, JsonNumFn, TraceIO
 VARIABLES l, si, so
 
 StartI(e) == IF e.first THEN PInit ELSE si
@@ -52,4 +52,26 @@ LineOK(e) ==
        \* "[With number keeping enabled ...] and the output is never longer than the input"
        /\ e.panic \/ ~(e.keep /\ e.last) \/ e.olen <= e.ilen \/ Reject(l, "longer than the input with number keeping")
 Conforms == l <= N => LineOK(Trace[l])
+
+(* Design-model drift (information, never a verdict; the driver files "drift" separately).
+   For a text that fits one window and consists of proper lexemes - valid or not -, the model
+   JsonSepFn.DRun predicts whether the loop ends with an error and which tokens it has written
+   by then; the model knows no number rewriting, so kinds are compared. *)
+NoDrift(e) ==
+  (e.first /\ e.last /\ ~e.panic) =>
+    LET ki == Kinds(e.it) IN
+    (\A i \in 1..Len(ki) : ki[i] # "junk") =>
+      LET d == DRun(ki)
+          np == SelectSeq([i \in 1..Len(ki) |-> i], LAMBDA i : ki[i] = "num")    \* positions of the numbers
+      IN
+      /\ (d.mode = "err") = e.err
+      /\ d.out = Kinds(e.ot)
+      /\ e.ows = 0
+      \* number branch: without number keeping the lexeme written is Repair(minify.Number(lexeme)), and
+      \* Number's result is in the normal form the repair relies on; e.nn = results of the public
+      \* minify.Number on the input's number lexemes, in order (recorded when the loop ended normally)
+      /\ (~e.keep /\ ~e.err /\ Len(e.ot) = Len(e.it)) =>
+            /\ Len(e.nn) = Len(np)
+            /\ \A j \in 1..Len(np) : NormalForm(e.nn[j]) /\ e.ot[np[j]] = Repair(e.nn[j])
+DesignAgrees == l <= N => (NoDrift(Trace[l]) \/ Reject(l, "drift"))
 =============================================================================
